@@ -29,6 +29,14 @@ N9  lock statement form      `L.acquire(); try: B finally: L.release()` (no hand
 N10 trivial delegation       (package level) a method whose whole body is `return self.<impl>(<its own parameters, in
                              order>)` where <impl> is a method of the same class with the same signature, referenced
                              nowhere else in the package and unknown to the catalogue, is replaced by <impl>'s body.
+N11 single-use new helper     (package level) a method (or module function) that the catalogue does not know, that is
+                             called at exactly one place in the package - a statement `self.h(a, b)`, `t = self.h(a, b)` or
+                             `return self.h(a, b)` in a method of the same class - is inlined there: parameters become
+                             the argument expressions (bound to fresh locals unless they are plain names or constants),
+                             its locals keep their names unless they collide, `return e` becomes the assignment / return
+                             / expression of the call site.  Declined (left as it is) when the helper has early returns
+                             the site cannot express, assigns to its parameters, has *args / **kwargs, is a generator,
+                             is decorated, or is referenced anywhere else.  Undoes "extract method".
 N8  dead bookkeeping         (package level) an assignment to an attribute of self / an entry of self.__dict__ whose
                              name occurs nowhere else in the package, with an effect-free right-hand side, is dropped:
                              nothing can observe it.
@@ -497,6 +505,193 @@ def undo_delegations(trees):
         w.body = (doc + ib) or [ast.copy_location(ast.Pass(), w)]
         cls.body.remove(impl)
         done.append(("%s.%s.%s" % (mod, cls.name, w.name), impl.name))
+    return done
+
+
+def _walk_no_nested(fn):
+    """nodes of fn's body without entering nested function / class definitions (lambdas are entered)."""
+    todo = list(fn.body)
+    while todo:
+        n = todo.pop()
+        yield n
+        if isinstance(n, (ast.FunctionDef, ast.AsyncFunctionDef, ast.ClassDef)):
+            continue
+        todo.extend(ast.iter_child_nodes(n))
+
+
+def _inline_plan(h, call, site_kind, g):
+    """statements that replace the call statement, or None when the helper cannot be inlined faithfully."""
+    import copy
+    from . import alpha
+    a = h.args
+    if a.vararg or a.kwarg or a.kwonlyargs or a.posonlyargs or h.decorator_list:
+        return None
+    if any(isinstance(n, (ast.Yield, ast.YieldFrom, ast.Await, ast.FunctionDef, ast.AsyncFunctionDef, ast.ClassDef, ast.Global, ast.Nonlocal)) for n in _walk_no_nested(h)):
+        return None
+    params = [x.arg for x in a.args]
+    is_method = isinstance(call.func, ast.Attribute)
+    recv = params[0] if is_method else None
+    formal = params[1:] if is_method else params
+    if call.keywords and any(k.arg is None or k.arg not in formal for k in call.keywords):
+        return None
+    actual = dict(zip(formal, call.args))
+    if len(call.args) > len(formal):
+        return None
+    for k in call.keywords:
+        if k.arg in actual:
+            return None
+        actual[k.arg] = k.value
+    defaults = dict(zip(params[len(params) - len(a.defaults):], a.defaults))
+    for p_ in formal:
+        if p_ not in actual:
+            if p_ not in defaults:
+                return None
+            actual[p_] = defaults[p_]
+    if any(isinstance(x, ast.Starred) for x in call.args):
+        return None
+    stored = set(n.id for n in _walk_no_nested(h) if isinstance(n, ast.Name) and isinstance(n.ctx, (ast.Store, ast.Del)))
+    if stored & set(params):
+        return None
+    if is_method:
+        g_self = g.args.args[0].arg if g.args.args else None
+        if g_self is None or _u(call.func.value) != g_self:
+            return None
+    body = copy.deepcopy([st for i, st in enumerate(h.body) if not (i == 0 and _is_docstring(st))])
+    if not body:
+        body = [ast.Pass()]
+    # returns
+    rets = [n for st in body for n in ast.walk(st) if isinstance(n, ast.Return)]
+    last = body[-1]
+    if site_kind in ("expr", "assign"):
+        if any(r is not last for r in rets):
+            return None        # an early return cannot be expressed at this site
+    wrapper = ast.Module(body=body, type_ignores=[])
+    # names: the helper's own locals keep their spelling unless the caller already uses it
+    g_names = set(n.id for n in ast.walk(g) if isinstance(n, ast.Name)) | set(x.arg for x in ast.walk(g) if isinstance(x, ast.arg))
+    h_locals = alpha.function_locals(h)
+    ren = {}
+    for nm in h_locals:
+        if nm in g_names:
+            k = nm + "__h"
+            while k in g_names or k in h_locals:
+                k += "_"
+            ren[nm] = k
+    pre = []
+    subst = {}
+    for p_ in formal:
+        e = actual[p_]
+        if isinstance(e, ast.Constant) or (isinstance(e, ast.Name) and e.id not in ren):
+            subst[p_] = e
+        else:
+            k = p_ if (p_ not in g_names and p_ not in h_locals) else p_ + "__a"
+            while k in g_names or k in h_locals or k in ren.values():
+                k += "_"
+            pre.append(ast.Assign(targets=[ast.Name(id=k, ctx=ast.Store())], value=copy.deepcopy(e)))
+            subst[p_] = ast.Name(id=k, ctx=ast.Load())
+    if is_method:
+        subst[recv] = ast.Name(id=g.args.args[0].arg, ctx=ast.Load())
+
+    class Sub(ast.NodeTransformer):
+        def visit_Name(self, n):
+            if n.id in ren:
+                n.id = ren[n.id]
+                return n
+            if n.id in subst and isinstance(n.ctx, ast.Load):
+                return ast.copy_location(copy.deepcopy(subst[n.id]), n)
+            return n
+
+        def visit_ExceptHandler(self, n):
+            if n.name in ren:
+                n.name = ren[n.name]
+            self.generic_visit(n)
+            return n
+    wrapper = Sub().visit(wrapper)
+    body = wrapper.body
+    return pre, body
+
+
+def inline_single_use_helpers(trees):
+    """N11 over the whole package: ``trees`` is {module name: ast.Module}."""
+    import copy
+    tab = table()
+    if not tab:
+        return []
+    uses = {}
+    for mod, tree in trees.items():
+        for n in ast.walk(tree):
+            if isinstance(n, ast.Attribute):
+                uses[n.attr] = uses.get(n.attr, 0) + 1
+            elif isinstance(n, ast.Name):
+                uses[n.id] = uses.get(n.id, 0) + 1
+            elif isinstance(n, ast.Constant) and isinstance(n.value, str) and n.value.isidentifier():
+                uses[n.value] = uses.get(n.value, 0) + 1
+            elif isinstance(n, ast.alias):
+                uses[n.name.split(".")[-1]] = uses.get(n.name.split(".")[-1], 0) + 1
+    done = []
+    for mod, tree in trees.items():
+        scopes = [(None, tree)] + [(c, c) for c in tree.body if isinstance(c, ast.ClassDef)]
+        for cls, holder in scopes:
+            changed = True
+            while changed:
+                changed = False
+                funcs = [m for m in holder.body if isinstance(m, ast.FunctionDef)]
+                for h in funcs:
+                    q = "%s.%s.%s" % (mod, cls.name, h.name) if cls is not None else "%s.%s" % (mod, h.name)
+                    if q in tab or (h.name.startswith("__") and h.name.endswith("__")) or uses.get(h.name, 0) != 1:
+                        continue
+                    # the one use: a statement-level call in a sibling function of the same holder
+                    site = None
+                    for g in funcs:
+                        if g is h:
+                            continue
+                        for owner, field, v in _all_blocks(g):
+                            for i, st in enumerate(v):
+                                call, kind = None, None
+                                if isinstance(st, ast.Expr) and isinstance(st.value, ast.Call):
+                                    call, kind = st.value, "expr"
+                                elif isinstance(st, ast.Assign) and len(st.targets) == 1 and isinstance(st.value, ast.Call):
+                                    call, kind = st.value, "assign"
+                                elif isinstance(st, ast.Return) and isinstance(st.value, ast.Call):
+                                    call, kind = st.value, "return"
+                                if call is None:
+                                    continue
+                                f_ = call.func
+                                hit = (cls is not None and isinstance(f_, ast.Attribute) and f_.attr == h.name and isinstance(f_.value, ast.Name)) or \
+                                      (cls is None and isinstance(f_, ast.Name) and f_.id == h.name)
+                                if hit:
+                                    site = (g, owner, field, v, i, st, call, kind)
+                    if site is None:
+                        continue
+                    g, owner, field, v, i, st, call, kind = site
+                    plan = _inline_plan(h, call, kind, g)
+                    if plan is None:
+                        continue
+                    pre, body = plan
+                    last = body[-1]
+                    if kind == "expr":
+                        if isinstance(last, ast.Return):
+                            body = body[:-1] + ([ast.Expr(value=last.value)] if last.value is not None and not isinstance(last.value, (ast.Constant, ast.Name)) else [])
+                    elif kind == "assign":
+                        val = last.value if isinstance(last, ast.Return) and last.value is not None else ast.Constant(value=None)
+                        body = (body[:-1] if isinstance(last, ast.Return) else body) + [ast.Assign(targets=st.targets, value=val)]
+                    else:
+                        for r in [n for b_ in body for n in ast.walk(b_) if isinstance(n, ast.Return)]:
+                            if r.value is None:
+                                r.value = ast.Constant(value=None)
+                        if not isinstance(last, (ast.Return, ast.Raise)):
+                            body = body + [ast.Return(value=ast.Constant(value=None))]
+                    new = pre + (body or [ast.Pass()])
+                    for x in new:
+                        ast.copy_location(x, st)
+                        for y in ast.walk(x):
+                            if not hasattr(y, "lineno") and isinstance(y, (ast.stmt, ast.expr)):
+                                ast.copy_location(y, st)
+                    v[i:i + 1] = new
+                    holder.body.remove(h)
+                    ast.fix_missing_locations(tree)
+                    done.append((q, "%s.%s" % (cls.name if cls is not None else mod, g.name)))
+                    changed = True
+                    break
     return done
 
 
